@@ -132,6 +132,10 @@ func stringInterpolationOperator(d *dataTreeNavigator, context Context, expressi
 			return Context{}, err
 		}
 		node := createScalarNode(value, value)
+		// the string is produced for this context node: it belongs to the same document of the same file
+		node.document = candidate.GetDocument()
+		node.filename = candidate.GetFilename()
+		node.fileIndex = candidate.GetFileIndex()
 		results.PushBack(node)
 	}
 
